@@ -1,6 +1,8 @@
 ------------------------------ MODULE MC_Hotspot ------------------------------
 EXTENDS Hotspot, TLC
 CONSTANTS NE, NN, MaxEntries, Values
+ValuesNonPositive == {-4, -1, 0}      \* fields whose maximum is not positive (threshold = limit_frac * max as coded: nothing but the maximum itself can reach it for frac < 1 ... )
+ValuesMixed == {-2, 0, 3}
 VARIABLES ent, frac, out
 vars == <<ent, frac, out>>
 Cells == (1..NE) \X (1..NN)
